@@ -16,7 +16,9 @@ from engine.symnp import _sel
 
 
 # (row region, column region, bbox in bins of 10 bp): none, one region, columns downstream of rows, columns UPSTREAM of rows
-RANGES = {0: (None, None, None), 1: ("c0:0-20", None, (0, 2, 0, 2)), 2: ("c0:0-20", "c0:10-30", (0, 2, 1, 3)), 3: ("c0:10-30", "c0:0-20", (1, 3, 0, 2))}
+RANGES = {0: (None, None, None), 1: ("c0:0-20", None, (0, 2, 0, 2)), 2: ("c0:0-20", "c0:10-30", (0, 2, 1, 3)), 3: ("c0:10-30", "c0:0-20", (1, 3, 0, 2)),
+          # rows and columns overlap in two bins: the overlap square has a cell below the diagonal
+          4: ("c0:0-30", "c0:10-30", (0, 3, 1, 3))}
 
 
 def PathAbortNow():
@@ -145,7 +147,7 @@ def _dump_cases(tier):
     out = []
     for n, K in ([(3, 2)] if tier == "quick" else [(3, 2), (3, 3), (4, 3)]):
         for upper in (True, False):
-            for rng in (0, 1, 2, 3):
+            for rng in (0, 1, 2, 3, 4):
                 if tier == "quick" and not upper and rng not in (0, 3):
                     continue
                 out.append(dict(n=n, K=K, upper=upper, range=rng))
